@@ -469,9 +469,13 @@ class Executor:
 
     def do_fork(self, path, fk):
         kids = []
+        feas = {}
+        feas[True] = self.dom.feasible(path, path.pc + [fk.cond])
+        # if one side is infeasible the other one is feasible (the path condition is consistent)
+        feas[False] = True if not feas[True] else self.dom.feasible(path, path.pc + [self.not_(fk.cond)])
         for branch in (True, False):
             c = fk.cond if branch else self.not_(fk.cond)
-            if not self.dom.feasible(path, path.pc + [c]):
+            if not feas[branch]:
                 continue
             k = path.clone()
             k.pc.append(c)
